@@ -1,7 +1,7 @@
 """Sidecar contracts: which real function is checked against which specification."""
 from pyvc.verify import Contract, Cut, Lemma, STR, INT, BOOL, OPT, URLT, UNION, CONST, BYTES
 
-from . import hooks, spec_parse, spec_url
+from . import hooks, spec_parse, spec_path, spec_url
 
 CONTRACTS = {}
 
@@ -104,8 +104,8 @@ add(Contract("yarl._url:URL.with_fragment", [("self", URLT), ("fragment", UNION(
 add(Contract("yarl._url:_encode_host", [("host", STR), ("validate_host", BOOL)], spec=spec_url.encode_host,
              raises=(ValueError,), opaque=True, shape=STR, ensures=spec_url.encode_host_ensures, assumed=True,
              props=(), note="assumed until C16's proof; conformance-tested"))
-add(Contract("yarl._path:normalize_path", [("path", STR)], spec=spec_url.normalize_path,
-             opaque=True, shape=STR, assumed=True, props=()))
+add(Contract("yarl._path:normalize_path", [("path", STR)], spec=spec_path.normalize_path,
+             opaque=True, shape=STR, props=("C15", "C14", "C19")))
 add(Contract("yarl._url:encode_url", [("url_str", STR)], spec=spec_url.encode_url, raises=(ValueError,),
              transparent=("yarl._parse:make_netloc",), shards=16,
              props=("WIP",)))
@@ -262,3 +262,12 @@ add(Contract("yarl._url:URL.__getstate__", [("self", URLT)], spec=spec_url.getst
 add(Contract("yarl._url:URL.__setstate__", [("self", "fresh-url"), ("state", "pickle-state")], spec=None,
              spec_module=spec_url, native_pre=hooks.setstate_pre, native_post=hooks.setstate_post, props=("C09", "C19"),
              note="self is the fresh object URL.__new__(cls) returns for the UNDEFINED sentinel (unpickling protocol)"))
+
+# ---------------------------------------------------------------- yarl/_path.py (C15)
+add(Contract("yarl._path:normalize_path_segments", [("segments", "seglist")], spec=None, abstract=hooks.nps_abstract,
+             native_spec=spec_path.normalize_path_segments, spec_module=spec_path,
+             native_pre=hooks.nps_pre, native_post=hooks.nps_post,
+             loops={0: {"inv": ("segs_no_dots(resolved_path) and len(resolved_path) <= __k and "
+                                "(not segs_no_dots_upto(segments, __k) or segs_prefix_equal(resolved_path, segments, __k))"),
+                        "step_post": "segs_step(OLD_resolved_path, seg, resolved_path)"}},
+             props=("C15", "C14", "C19")))
